@@ -237,9 +237,10 @@ theorem Rel.run {s s' : Nat} (hle : s ≤ s') (n : Nat) (t : Task) :
   induction n generalizing t with
   | zero => exact Rel.refl _
   | succ k ih =>
-    show Rel (Rsj.Eval.step { maxStack := s } (Rsj.Eval.run { maxStack := s } k) t)
-      (Rsj.Eval.step { maxStack := s' } (Rsj.Eval.run { maxStack := s' } k) t)
-    exact Rel.step hle ih t
+    show Rel (Rsj.Eval.stepN { maxStack := s } (Rsj.Eval.run { maxStack := s } k) t)
+      (Rsj.Eval.stepN { maxStack := s' } (Rsj.Eval.run { maxStack := s' } k) t)
+    unfold Rsj.Eval.stepN
+    exact Rel.bind (Rel.refl _) (fun _ => Rel.step hle ih t)
 
 /-- The monadic part of `evalProgram` (force, deep-evaluate, manifest). -/
 def progOf (cfg : Cfg) (fuel : Nat) (e : Expr) : M String := do
